@@ -187,6 +187,22 @@ pub fn describe(label: int) -> str {
 }
 fn main() { }
 `}},
+	{Name: "none-in-typed-slots-assigned-through-their-containers", Tree: true, Mods: map[string]string{"main": `type Cfg = { retries: ?int, name: ?str };
+fn main() {
+    let names: [str] = [];
+    println(names.pop(), names.last(), "[null]".parse_json() as [?int]);
+    let cfg: Cfg = new { retries: none, name: none };
+    println(cfg.retries, cfg.name);
+    cfg.retries = ?3;
+    cfg.name = ?"n";
+    let parsed = "{\"retries\": null, \"name\": null}".parse_json() as Cfg;
+    parsed.retries = ?4;
+    let lst: [?int] = [none, ?1];
+    lst[0] = ?9;
+    let fresh: ?int = none;
+    println(cfg.retries, cfg.name, parsed.retries, parsed.name, lst, fresh, names.pop());
+}
+`}},
 	{Name: "singletons-two", Tree: true, Mods: map[string]string{"main": `$A = { n: int, s: str };
 $B = { m: int };
 fn f(a: $A, b: $B) -> int { a.n = 3; b.m = 4; a.n * 10 + b.m }
